@@ -486,7 +486,12 @@ impl<'a> Sim<'a> {
             let (fs_arc, now) = {
                 let world = self.world.borrow();
                 let host = world.hosts.get(&addr).expect("missing host");
-                (Arc::clone(&host.fs), host.timer.since_epoch())
+                // Read the host clock on the host's (paused) tokio clock.
+                // Outside a runtime context `Instant::elapsed` falls back
+                // to the wall clock, which leaked real time into fs
+                // timestamps and io_uring deadlines.
+                let now = rt.with_clock(|| host.timer.since_epoch());
+                (Arc::clone(&host.fs), now)
             };
             #[cfg(feature = "unstable-io_uring")]
             let iou_arc = {
